@@ -909,6 +909,8 @@ impl<R: Read> RdbReader<R> {
                     let first_element = self.read_string()?;
                     if first_element == b"__FERROUS_STREAM_MARKER__" {
                         // This is a stream - reconstruct it
+                        // The key exists even when no entry follows (a stream emptied by XDEL/XTRIM)
+                        storage.set_value(db, key.clone(), Value::Stream(crate::storage::stream::Stream::new()), None)?;
                         let remaining_count = count - 1;
                         let mut entry_idx = 0;
                         
